@@ -381,12 +381,20 @@ def r4(ctx):
     ctx.ob("PedigreeDPTable", "four-values-per-trio", ok, "src/pedigreedptable.cpp", "the DP enumerates 4^trios transmission values" if ok else "the number of transmission values is no longer 4^triple_count")
 
 
+def r5(ctx):
+    # the trio's calls are rewritten through the same writer: GT normalisation may not depend on the input call's phase
+    from rules import c09
+
+    c09.r3(ctx)
+
+
 RULES = [
     ("C05.R1", "role flow father|mother from PED file to GT across three languages", r1),
     ("C05.R2", "missing genotypes and Mendelian conflicts are excluded (set algebra)", r2),
     ("C05.R3", "genetic phasing of homozygous-parent variants on by default", r3),
     ("C05.R4", "transmission bit layout agrees between C++ and Python", r4),
+    ("C05.R5", "GT is normalised whether or not the input call was phased", r5),
 ]
 # instance floors: about 60% of the instances confirmed by hand on the reference tree -- a rule that suddenly matches far fewer
 # sites fails the run (exit 2); a clean-up that merges two sites into one does not
-FLOORS = {"C05.R1": 9, "C05.R2": 8, "C05.R3": 2, "C05.R4": 4}
+FLOORS = {"C05.R1": 9, "C05.R2": 8, "C05.R3": 2, "C05.R4": 4, "C05.R5": 1}
